@@ -201,6 +201,7 @@ func load(overlay map[string][]byte) (*Ctx, error) {
 			c.SSA[p.Pkg.Path()] = p
 		}
 	}
+	buildCallSites(prog)
 	return c, nil
 }
 
@@ -597,6 +598,22 @@ func excLookupE(m map[string]excEntry, key string) (excEntry, bool) {
 			return m[best], true
 		}
 	}
+	// pattern entries ("re:<regexp>"): an exception whose reason covers a family of constructs - every index
+	// of one container by one kind of value in one function - however the function spells them (one site
+	// behind a phi, or one site per branch after a guard-clause rewrite). Matched against the key with
+	// local names erased.
+	nk := eraseNames(key)
+	best := ""
+	for k := range m {
+		if strings.HasPrefix(k, "re:") && (best == "" || k < best) {
+			if re, err := regexp.Compile(k[3:]); err == nil && re.MatchString(nk) {
+				best = k
+			}
+		}
+	}
+	if best != "" {
+		return m[best], true
+	}
 	return excEntry{}, false
 }
 
@@ -626,6 +643,35 @@ func eraseNamesAndPrivateFields(key string) string {
 	}
 	b.WriteString(key[last:])
 	return b.String()
+}
+
+// eraseLoose: additionally forgets whether a name was a phi, a local's address or a plain value
+// ("φ", "&_" and "_" all become "_"): the same expression inside an extracted helper sees a
+// parameter where the original function had a loop variable or a local.
+func eraseLoose(key string) string {
+	key = eraseNamesAndPrivateFields(key)
+	key = strings.ReplaceAll(key, "φ", "_")
+	key = strings.ReplaceAll(key, "&_", "_")
+	key = strings.ReplaceAll(key, "*_", "_")
+	return key
+}
+
+// excLookupLoose: excLookupE, then modulo eraseLoose.
+func excLookupLoose(m map[string]excEntry, key string) (excEntry, bool) {
+	if e, ok := excLookupE(m, key); ok {
+		return e, true
+	}
+	nk := eraseLoose(key)
+	best := ""
+	for k := range m {
+		if eraseLoose(k) == nk && (best == "" || k < best) {
+			best = k
+		}
+	}
+	if best != "" {
+		return m[best], true
+	}
+	return excEntry{}, false
 }
 
 func excLookupS(m map[string]string, key string) (string, bool) {
